@@ -37,6 +37,9 @@ def events(tr):
         slot_node = lab[1] if lab[0] == 'slotted_service' else None
         shift_node = lab[1] if lab[0] == 'shift_change' else None
         nstarts = {}
+        if lab[0] == 'end_service' and lab[1] in kinds and isinstance(lab[4], int):
+            out.append([6, lab[1], lab[4]])
+            meta.append(fi + 1)
         for e in cev:
             k = e[0]
             if k == 'Start' and e[1] in kinds:
@@ -78,7 +81,7 @@ class C12(Prop):
                    68: 'capacitated pre-emptive slot: more than slot size in service afterwards', 69: 'service start while zero servers are scheduled',
                    70: 'a fresh customer started while an interrupted one was waiting', 71: 'slotted node: service start outside a slot',
                    72: 'interrupted record not dated at the shift end', 73: 'servers on duty between shift changes differ from the timetable',
-                   74: 'a shift change is overdue', 80: 'Schedule/Slotted object disagrees with the Gallina model'}
+                   74: 'a shift change is overdue', 75: 'the node executed an end of service at (or after) the date of its own due shift change / slot (at a tie the shift change / slot goes first)', 80: 'Schedule/Slotted object disagrees with the Gallina model'}
 
     def jobs(self, tier, seed):
         js = super().jobs(tier, seed)
